@@ -91,4 +91,22 @@ theorem hmEvaluated_false_of_small (shape bshape : List Nat) (p : List Int) (i :
           simp only [hns, Bool.false_eq_true, if_false]
           rw [ih bs xs j hj h]; simp
 
+/-- with odd sides only, the even-side rule skips nothing -/
+theorem hmEvenExcluded_odd (shape bshape : List Nat) (p : List Int) (hodd : ∀ b ∈ bshape, b % 2 = 1) :
+    hmEvenExcluded shape bshape p = false := by
+  induction shape generalizing bshape p with
+  | nil => unfold hmEvenExcluded; rfl
+  | cons n ns ih =>
+    cases bshape with
+    | nil => unfold hmEvenExcluded; rfl
+    | cons b bs =>
+      cases p with
+      | nil => unfold hmEvenExcluded; rfl
+      | cons x xs =>
+        unfold hmEvenExcluded
+        have hb : b % 2 = 1 := hodd b (by simp)
+        rw [ih bs xs (fun b hb => hodd b (by simp [hb]))]
+        have : (b % 2 == 0) = false := by rw [hb]; rfl
+        rw [this]; rfl
+
 end Mahotas.C14
